@@ -2301,7 +2301,10 @@ func (x *actorSystem) handleRemoteAsk(ctx context.Context, to *PID, message any,
 	case response = <-responseCh:
 		verifhook.At("ask.woke", receiveContext, 1, 0)
 		timers.Put(timer)
-		receiveContext.responseClosed.Store(true)
+		// The reply has been consumed, so the only Response that passed the
+		// responseClosed guard is done with the channel. receiveContext itself
+		// must not be touched any more: the mailbox may already have recycled
+		// it into another Ask.
 		putResponseChannel(responseCh)
 		return
 	case <-ctx.Done():
@@ -2309,16 +2312,20 @@ func (x *actorSystem) handleRemoteAsk(ctx context.Context, to *PID, message any,
 		err = errors.Join(ctx.Err(), gerrors.ErrRequestTimeout)
 		to.handleReceivedErrorWithMessage(noSender, message, err)
 		timers.Put(timer)
-		receiveContext.responseClosed.Store(true)
-		putResponseChannel(responseCh)
+		// The target may still reply: it may be past the responseClosed guard
+		// already, and receiveContext may have been recycled into another Ask.
+		// Leave both alone and let the reply channel be garbage collected
+		// instead of handing it to the next caller.
 		return nil, err
 	case <-timer.C:
 		verifhook.At("ask.woke", receiveContext, 3, 0)
 		err = gerrors.ErrRequestTimeout
 		to.handleReceivedErrorWithMessage(noSender, message, err)
 		timers.Put(timer)
-		receiveContext.responseClosed.Store(true)
-		putResponseChannel(responseCh)
+		// The target may still reply: it may be past the responseClosed guard
+		// already, and receiveContext may have been recycled into another Ask.
+		// Leave both alone and let the reply channel be garbage collected
+		// instead of handing it to the next caller.
 		return
 	}
 }
